@@ -127,6 +127,16 @@ func (t *listTarget) instantiate(g *gen.G) (root reflect.Value, parent reflect.V
 			if !ok {
 				panic("instantiate: cannot create ordered entry for " + t.String())
 			}
+			// scenery: in half of the cases the outer ordered list gets one or two further,
+			// fully populated entries (with inner ordered lists of their own), so that whatever
+			// walks the tree walks ordered lists from inside the walk of an ordered list
+			if g.R.Intn(2) == 0 {
+				g.P.PLeaf, g.P.PContainer, g.P.PList, g.P.MaxList = 0.7, 0.8, 1, 3
+				for n := 1 + g.R.Intn(2); n > 0; n-- {
+					g.AddOrderedEntry(f, csch, 0)
+				}
+				g.P = saveP
+			}
 			st2 := model.OrderedInternals(f)
 			cur = st2.ValueMap.MapIndex(st2.Keys.Index(0))
 		}
